@@ -281,8 +281,24 @@ func (c *treeCase) deleteBelow(ts uint64) {
 		c.r.Count("del_removed_some")
 	}
 	c.emitStats()
-	c.walk()       // DeleteBelow rebuilds the page structure: always compare it (and look for nil children)
-	c.sweep(false) // exactness: the removed keys read 0, all others are unchanged
+	c.walk() // DeleteBelow rebuilds the page structure: always compare it (and look for nil children)
+	if c.r.Rng.Intn(3) != 0 {
+		c.sweep(false) // exactness: the removed keys read 0, all others are unchanged
+	} else {
+		// no reads right after the DeleteBelow: whatever the tree remembers from earlier reads (a
+		// cached leaf, a cursor) survives into the next Set/Get of a key in a freed range
+		c.r.Count("del_without_sweep")
+		if n := len(c.usedList); n > 0 {
+			for i := 0; i < 3; i++ {
+				k := c.usedList[c.r.Rng.Intn(n)]
+				if _, live := c.ref[k]; !live {
+					c.set(k, c.value())
+					c.get(k)
+					break
+				}
+			}
+		}
+	}
 }
 
 func (c *treeCase) iterate(mod uint64, salt uint64) {
@@ -635,7 +651,11 @@ func (c *treeCase) mixedOps(n int, g *keyGen, allowReset bool) {
 	for i := 0; i < n && !c.dead; i++ {
 		switch x := rng.Intn(1000); {
 		case x < 700:
-			c.set(g.key(c), c.value())
+			k := g.key(c)
+			c.set(k, c.value())
+			if rng.Intn(2) == 0 {
+				c.get(k) // read-your-write first, before any other read moves a cached position
+			}
 			c.sampleGets(2)
 		case x < 715:
 			c.set(g.key(c), 0) // value 0 is outside the documented range: a placeholder, reads as absent
